@@ -8,6 +8,8 @@ git -C /verif worktree add -q -b "box-$n" "$d/verif" HEAD
 cp /repo/Cargo.lock "$d/repo/Cargo.lock" 2>/dev/null || true
 mkdir -p "$d/verif/harness"
 cp -r /verif/harness/target "$d/verif/harness/target" 2>/dev/null || true
+# the copied build-script output (mods.rs) names /verif/harness/src/*.rs by absolute path: make the build script run again in the box
+rm -rf "$d"/verif/harness/target/*/build/kvh-* 2>/dev/null || true
 # compiled Coq development and model driver (same mtimes, so make does not rebuild what is unchanged)
 rsync -a /verif/coq/ "$d/verif/coq/" 2>/dev/null || true
 rsync -a /verif/ocaml/_build "$d/verif/ocaml/" 2>/dev/null || true
